@@ -17,10 +17,10 @@ SETTINGS = {
             "thorough": (["MC_AggSymmetry_C08_thorough.cfg", "MC_AggSymmetry_mixed_thorough.cfg"], 6000,
                          [0, -13, -14, -15, -17, -20, -34, 20, 40], 8, 500)},
     "C09": {"quick": (["MC_AggSymmetry_C09_quick.cfg"], 700, [-10, -44, 0], 8, 100),
-            "thorough": (["MC_AggSymmetry_C09_thorough.cfg"], 6000, [-10, -44, 0, -24, 20], 8, 500)},
+            "thorough": (["MC_AggSymmetry_C09_thorough.cfg"], 4000, [-10, -44, 0, -24], 8, 400)},
     "C10": {"quick": (["MC_AggSymmetry_C10_quick.cfg"], 10 ** 9, [0, -14, -34, 40], 6, 100),
             "thorough": (["MC_AggSymmetry_C10_thorough.cfg"], 10 ** 9,
-                         [0, -14, -20, -34, 20, 40], 8, 500)},
+                         [0, -14, -20, -34, 40], 8, 400)},
 }
 MODE_OF = {"C08": "cols", "C09": "scale", "C10": "rows"}
 
